@@ -12,7 +12,7 @@ META = {
                  "before delegating; R13.3 compressed writers: close (finish stream) -> inner rotate -> open (re-init); R13.4 leaf "
                  "writers: close -> assign new target -> open, nothing writes the old handle after close; R13.5 no override of "
                  "rotate_output can return without having rotated (silent no-op) — it rotates or throws on every path; R13.6 the "
-                 "header of each output serialises the current file preamble. R13.3 also: the compressors are never re-initialised with a partial reset (deflateResetKeep and the like).",
+                 "header of each output serialises the current file preamble. R13.3 also: the compressors are never re-initialised with a partial reset (deflateResetKeep and the like). R13.8 = the name obligations of R15.1/R15.2 (the file a rotation publishes is the file that was written: scratch name = final name + .part). R13.9: a data member that is always assigned the same function of other members (cdnsverif/derived.py) is recomputed by every member function that changes those members; the lazy form under a validity flag / stored key is refreshed before every read and invalidated after every change. R13.4 also accepts close(); the new file opened aside in a local stream; stream and name committed together.",
     "explanation": "must-precede / who-may-call rules over the rotate path (8 functions incl. template instantiations from the "
                    "verif-owned instantiation TU). 'Records in all outputs = records buffered' as an equality over histories is not "
                    "decided.",
